@@ -120,7 +120,10 @@ def run(ck, prog, ctx):
         if not ck.anchor("DOM", "Arena::" + name, b, private=True):
             continue
         tests = zero_test_edges(b, pv, is_slot)
-        idx_calls = [(bi, t) for bi, t in b.calls() if t.callee.method in ("index", "index_mut", "get_unchecked", "get_unchecked_mut") and "HpoTermInternal" in (t.callee.def_args or "")]
+        # every way of reaching into `terms` by slot: indexing as well as the checked get / get_mut of Vec / slice (checked against the
+        # LENGTH only: slot 0, the placeholder, is always in range)
+        idx_calls = [(bi, t) for bi, t in b.calls() if t.callee.method in ("index", "index_mut", "get_unchecked", "get_unchecked_mut", "get", "get_mut") and "HpoTermInternal" in (t.callee.def_args or "")
+                     and not (t.callee.res and t.callee.res in prog.bodies)]
         if not idx_calls:
             ck.undecided("DOM", "%s/access" % name, "no access to `terms` by slot recognised in Arena::%s" % name, where=b.where())
         for n, (bi, t) in enumerate(idx_calls):
@@ -168,6 +171,15 @@ def run(ck, prog, ctx):
     def name_side(atoms, owner_rx):
         return any((a[0] == "field" and a[2] == "name" and re.search(owner_rx, a[1])) or (a[0] == "call" and re.search(r"::name$", a[1]) and re.search(owner_rx, a[1] + a[2])) for a in atoms)
 
+    pvs_ = Prov(prog, inline=False)
+
+    from props.shared import text_changes
+
+    def transforms(b, op):
+        """text-changing std calls applied to a compared string inside the predicate (trim, to_lowercase, slicing ...): the lookup is on
+        the name as stored and the query as given"""
+        return text_changes(prog, pvs_, b, op)
+
     g, sites = closure_calls("ontology::Ontology::gene_by_name", r"^<str as std::cmp::PartialEq>::eq$|^<&str as std::cmp::PartialEq>::eq$|^<str as std::cmp::PartialEq<str>>::eq|^<&str as std::cmp::PartialEq<&str>>::eq")
     if ck.anchor("ROLE", "Ontology::gene_by_name", g):
         other = [(b, bi, t) for b in prog.family(g) for bi, t in b.calls() if t.callee.method in ("contains", "starts_with", "ends_with", "eq_ignore_ascii_case", "find") and (t.callee.impl_self or "").startswith("str")]
@@ -182,6 +194,8 @@ def run(ck, prog, ctx):
             qs = [2 in params_of(a0, g.id), 2 in params_of(a1, g.id)]
             ok = (names[0] and qs[1] and not qs[0]) or (names[1] and qs[0] and not qs[1])
             ck.ob("ROLE", "gene_by_name/eq/%d" % n, ok, "gene_by_name compares %s" % ("gene.name() with the query parameter by equality" if ok else "operands that are not (gene name, query)"), where=b.where(t.line))
+            tr = transforms(b, t.args[0]) + transforms(b, t.args[1])
+            ck.ob("ROLE", "gene_by_name/as-given/%d" % n, not tr, "gene_by_name compares the stored symbol and the query %s" % ("as they are" if not tr else "after `%s`: a gene with another symbol can be returned" % ", ".join(tr)), where=b.where(t.line))
     for fid, key, qparam in (("ontology::Ontology::omim_disease_by_name", "omim_disease_by_name", 2),):
         fb, sites = closure_calls(fid, r"^core::str::<impl str>::contains")
         if ck.anchor("ROLE", key, fb):
@@ -192,6 +206,8 @@ def run(ck, prog, ctx):
                 pat = pv.of_operand(b, t.args[1])
                 ok = name_side(recv, r"Disease") and qparam in params_of(pat, fb.id) and not name_side(pat, r"Disease") and qparam not in params_of(recv, fb.id)
                 ck.ob("ROLE", "%s/contains/%d" % (key, n), ok, "%s calls %s" % (key, "name.contains(query)" if ok else "str::contains with receiver/pattern that are not (disease name, query)"), where=b.where(t.line))
+                tr = transforms(b, t.args[0]) + transforms(b, t.args[1])
+                ck.ob("ROLE", "%s/as-given/%d" % (key, n), not tr, "%s tests the stored name and the query %s" % (key, "as they are" if not tr else "after `%s`" % ", ".join(tr)), where=b.where(t.line))
     # every record is examined: no truncating adaptor between the record collection and the `find`
     pvl = Prov(prog, inline=False, bind_closures=False)
     for fid, key in (("ontology::Ontology::gene_by_name", "gene_by_name"), ("ontology::Ontology::omim_disease_by_name", "omim_disease_by_name"),
@@ -228,6 +244,8 @@ def run(ck, prog, ctx):
             QF = sflds[0] if len(sflds) == 1 else "query"
             qfield = lambda at: QF in field_names(at, "OmimDiseaseFilter")
             ok = name_side(recv, r"Disease") and qfield(pat) and not qfield(recv) and not name_side(pat, r"Disease")
+            tr = transforms(b, t.args[0]) + transforms(b, t.args[1])
+            ck.ob("ROLE", "filter_next/as-given/%d" % n, not tr, "OmimDiseaseFilter::next tests the stored name and the query %s" % ("as they are" if not tr else "after `%s`" % ", ".join(tr)), where=b.where(t.line))
             ck.ob("ROLE", "filter_next/contains/%d" % n, ok, "OmimDiseaseFilter::next calls %s" % ("item.name().contains(self.query)" if ok else "str::contains with receiver/pattern that are not (disease name, query field)"), where=b.where(t.line))
         # the query field is the caller's substring
         byname = prog.body("ontology::Ontology::omim_diseases_by_name")
@@ -246,6 +264,9 @@ def run(ck, prog, ctx):
                         qa = pv.of_operand(new, s.rv["ops"][s.rv["fields"].index(sflds[0])])
             if qa is not None:
                 ck.ob("ROLE", "filter_new/field", 2 in params_of(qa, new.id), "OmimDiseaseFilter::new stores its `query` parameter in the query field", where=new.where())
+                # ... unchanged: the search is for names that contain the query AS GIVEN (no trimming, no case folding)
+                steps = text_changes(prog, pv, new, s.rv["ops"][s.rv["fields"].index(sflds[0])]) if len(sflds) == 1 and sflds[0] in s.rv["fields"] else []
+                ck.ob("ROLE", "filter_new/unchanged", not steps, "OmimDiseaseFilter::new stores the query %s" % ("as given" if not steps else "after `%s`: names that do not contain the caller's query are returned" % ", ".join(steps)), where=new.where())
 
     # ---- the arena's id iterator answer each protocol method with the inner iterator's SAME method
     ck.rule("SIBLING", "an iterator wrapper's next / next_back / len / size_hint delegates to the same method of the inner iterator (DESIGN 3.15)")
